@@ -38,6 +38,10 @@ PLACEMENT_SNIPPETS = {
     "two-stars-for-nested": ["for *zz_a, [zz_c], *zz_b in [[1, [2], 3]]:", "    pass"],
     "two-stars-chained": ["zz_c = *zz_a, *zz_b = [1, 2]"],
     "two-stars-deep": ["zz_c, (zz_d, (*zz_a, zz_e, *zz_b)) = 1, (2, [3, 4, 5])"],
+    # the same in the target of a comprehension clause (list / dict comprehension, generator expression, second clause)
+    "two-stars-comp": ["zz_c = [zz_a for *zz_a, *zz_b in [[1, 2]]]"],
+    "two-stars-dictcomp": ["zz_c = {1: zz_a for zz_d, *zz_a, *zz_b in [[1, 2, 3]]}"],
+    "two-stars-genexp": ["zz_c = list(zz_b for zz_d in [0] for [*zz_a, *zz_b] in [[1, 2]])"],
 }
 
 
@@ -154,7 +158,8 @@ def all_injections(src, rng=None, per_kind=None):
         if near != "def":
             out.append(("return-outside", i, "\n".join(inject_stmt(lines, i, ["return 1"])) + "\n"))
         for kind in ("two-stars", "two-stars-for", "two-stars-nested", "two-stars-around-nested", "two-stars-starred-nested",
-                     "two-stars-list", "two-stars-for-nested", "two-stars-chained", "two-stars-deep"):
+                     "two-stars-list", "two-stars-for-nested", "two-stars-chained", "two-stars-deep",
+                     "two-stars-comp", "two-stars-dictcomp", "two-stars-genexp"):
             out.append((kind, i, "\n".join(inject_stmt(lines, i, PLACEMENT_SNIPPETS[kind])) + "\n"))
     return out
 
@@ -194,6 +199,8 @@ CURATED = [
     ("class-body-below-nonlocal-rebinder", "def outer():\n    x = 'o'\n    def middle():\n        nonlocal x\n        x = x + 'm'\n        class K:\n            a = x\n            def m(self):\n                return x\n        return K.a, K().m(), x\n    return middle(), x\nprint(outer())\n"),
     ("lambda-signatures", "f = lambda a, b=2, *c, d, e=5, **k: (a, b, c, d, e, sorted(k))\ng = lambda *, name, sep: name + sep\nh = lambda *a, k: (a, k)\ni = lambda a, /, b, *, c: (a, b, c)\n"
      "print(f(1, d=4), g(name='n', sep='-'), h(1, k=2), i(1, 2, c=3), (lambda *, only: only)(only=1))\n"),
+    ("positional-only-defaults", "def f(a, b=1, /, c=2):\n    return (a, b, c)\ndef g(p=10, /):\n    return p\nh = lambda p=10, /, q=20: (p, q)\nk = lambda a, b=3, /, *r, z=4: (a, b, r, z)\n"
+     "print(f(0), f(0, 5), f(0, 5, 6), f(0, c=9), g(), g(3), h(), h(1), h(1, q=2), k(1), k(1, 2, 3, z=5))\n"),
     ("aug-subscript-index-rebinds-object", "a = [1, 2]\nb = [10, 20]\ndef swap():\n    global a\n    a = b\n    return 0\na[swap()] += 5\nc = [1, 2]\nd = c\nc[(c := [7, 8])[0] - 7] += 1\nprint(a, b, c, d)\n"),
     ("genexp-argument-with-keywords", "w = ['bb', 'a', 'ccc']\nprint(sorted((x for x in w), key=len), max((len(x) for x in w), default=0), sum((1 for _ in w), 10))\n"),
     # one class per shape: the names a class body's lambdas read as globals are collected per class
